@@ -605,3 +605,27 @@ func init() {
 			Old: "if jsonwire.ConsumeSimpleString(buf) == len(buf) {", New: "if jsonwire.ConsumeSimpleString(buf) == len(buf) || (flags.Get(jsonflags.PreserveRawStrings) && !flags.Get(jsonflags.AnyEscape)) {", Rule: "VERB-1"},
 	)
 }
+
+func init() {
+	addMutants(
+		// ---- round-g strengthening
+		Mutant{ID: "scratch1-map-value-not-reset", Props: []string{"C04", "C14"}, File: "arshal_default.go", Func: "makeMapArshaler",
+			Old: "\t\t\t\t} else {\n\t\t\t\t\tv.SetZero()\n\t\t\t\t}\n\n\t\t\t\t// Unmarshal the map entry value.", New: "\t\t\t\t}\n\n\t\t\t\t// Unmarshal the map entry value.", Rule: "SCRATCH-1"},
+		Mutant{ID: "seenset1-low-word-overwritten", Props: []string{"C08", "C15"}, File: "arshal_default.go", Func: "uintSet64.set",
+			Old: "*s |= 1 << i", New: "*s = 1 << i", Rule: "SEENSET-1"},
+		Mutant{ID: "pos2-offset-needs-empty-previous", Props: []string{"C16"}, File: "errors.go", Func: "newSemanticErrorWithPosition",
+			Old: "if (prevDepth == currDepth && prevLength == currLength) || len(tokOrVal) == 0 {", New: "if (prevDepth == currDepth && prevLength == currLength) && len(tokOrVal) == 0 {", Rule: "POS-2"},
+		Mutant{ID: "names2-appendraw-record-under-dup-flag", Props: []string{"C16"}, File: "jsontext/encode.go", Func: "encoderState.AppendRaw",
+			Old: "\t\t\t\t}\n\t\t\t}\n\t\t\te.Names.ReplaceLastQuotedOffset(pos) // only replace if insertQuoted succeeds\n", New: "\t\t\t\t}\n\t\t\t\te.Names.ReplaceLastQuotedOffset(pos) // only replace if insertQuoted succeeds\n\t\t\t}\n", Rule: "NAMES-2"},
+		Mutant{ID: "guard1-pointer-isvalid-wide-guard", Props: []string{"C16"}, File: "jsontext/state.go", Func: "Pointer.IsValid",
+			Old: "return len(p) == 0 || p[0] == '/'", New: "return len(p) <= 1 || p[0] == '/'", Rule: "GUARD-1"},
+		Mutant{ID: "share1-adopt-single-list", Props: []string{"C17", "C18"}, File: "arshal_funcs.go", Func: "newTypedArshalers",
+			Old: "a.fncVals = append(a.fncVals, a2.fncVals...)", New: "if len(a.fncVals) == 0 {\n\t\t\t\ta.fncVals = a2.fncVals\n\t\t\t} else {\n\t\t\t\ta.fncVals = append(a.fncVals, a2.fncVals...)\n\t\t\t}", Rule: "SHARE-1"},
+		Mutant{ID: "null1-float-quoted-null-zeroes-under-merge", Props: []string{"C09", "C14"}, File: "arshal_default.go", Func: "makeFloatArshaler",
+			Old: "\t\t\t\t\t\tif !uo.Flags.Get(jsonflags.MergeWithLegacySemantics) {\n\t\t\t\t\t\t\tva.SetFloat(0)\n\t\t\t\t\t\t}\n", New: "\t\t\t\t\t\tva.SetFloat(0)\n", Rule: "NULL-1"},
+		Mutant{ID: "full1-parseuint-verdict-dropped", Props: []string{"C04", "C10"}, File: "arshal_time.go", Func: "parseTimeUnix",
+			Old: "mid, _ := parsePaddedBase10(wholeBytes[len(wholeBytes)-width:], pow10)", New: "mid, _ := jsonwire.ParseUint(wholeBytes[len(wholeBytes)-width:])", Rule: "FULL-1"},
+		Mutant{ID: "field1-folded-index-skips-strict", Props: []string{"C08", "C15"}, File: "fields.go", Func: "makeStructFields",
+			Old: "\t\tfs.byFoldedName[foldedName] = append(fs.byFoldedName[foldedName], &fs.flattened[i])\n", New: "\t\tif f.casing != caseStrict {\n\t\t\tfs.byFoldedName[foldedName] = append(fs.byFoldedName[foldedName], &fs.flattened[i])\n\t\t}\n", Rule: "FIELD-1"},
+	)
+}
